@@ -247,3 +247,7 @@ pub mod c11 {
 
 /// the four strategy checkpoints of the main loop (C04)
 pub use crate::solver::core::verif_hooks_checkpoints;
+
+/// clique-graph merge strategy pass by pass (needs `sdp`)
+#[cfg(feature = "sdp")]
+pub use crate::solver::chordal::verif_hooks_cg as chordal_cg;
